@@ -21,8 +21,10 @@ package main
 //	bsu      flushBlockSummary       fd.Write
 //	ssttmp   FlushSegStats           os.OpenFile(.sst.tmp, O_TRUNC)   (its content is never read)
 //	sstren   FlushSegStats           os.Rename
-//	sfmtrunc WriteSfm                os.OpenFile(.sfm, O_TRUNC)
-//	sfmwrite WriteSfm                sfmFd.Write
+//	sfmtmp   WriteSfm                os.OpenFile(.sfm.tmp, O_TRUNC)   (its content is never read)
+//	sfmren   WriteSfm                os.Rename onto .sfm
+//	         (a WriteSfm that truncates the .sfm in place again has no Rename marker: `X order` and every later
+//	         window then differ from the model, and the property check reports completed-flush-lost@WriteSfm)
 //	segmeta  BulkAddRotatedSegmetas  fd.Write              (segmeta.json append)
 //
 // `X m` stands for EVERY crash point at which exactly m markers had completed (points between two model steps
@@ -134,7 +136,7 @@ func parseCrashHist(toks []string) (*crashHist, bool) {
 		}
 		h.flushes = append(h.flushes, pending)
 		pending = nil
-		h.kinds = append(h.kinds, "cols", "bsu", "ssttmp", "sstren", "sfmtrunc", "sfmwrite")
+		h.kinds = append(h.kinds, "cols", "bsu", "ssttmp", "sstren", "sfmtmp", "sfmren")
 		blocks++
 		return len(h.flushes) - 1
 	}
@@ -159,7 +161,7 @@ func parseCrashHist(toks []string) (*crashHist, bool) {
 			cmdNo++
 			h.cmdFl[cmdNo] = flush()
 			if h.created && blocks > 0 {
-				h.kinds = append(h.kinds, "sfmtrunc", "sfmwrite", "segmeta")
+				h.kinds = append(h.kinds, "sfmtmp", "sfmren", "segmeta")
 				open(0)
 				blocks = 0
 			}
@@ -277,9 +279,9 @@ func markerKind(fn string, calls []string, label, finalWait string) string {
 	case fn == "FlushSegStats" && hasCall(calls, "Rename"):
 		return "sstren"
 	case fn == "WriteSfm" && hasCall(calls, "OpenFile"):
-		return "sfmtrunc"
-	case fn == "WriteSfm" && hasCall(calls, "Write"):
-		return "sfmwrite"
+		return "sfmtmp"
+	case fn == "WriteSfm" && hasCall(calls, "Rename"):
+		return "sfmren"
 	case fn == "BulkAddRotatedSegmetas" && hasCall(calls, "Write"):
 		return "segmeta"
 	}
